@@ -211,6 +211,14 @@ fn run_one_inner(args: &Args, prof: &Profile, run: u64, rep: &mut Report, make_m
 			outcome = "ldk debug assertion (FreeDuplicateClaimImmediately found in the persisted action queue)".to_string();
 			rep.count("ldk_debug_assert_free_duplicate_claim_in_persisted_queue");
 		},
+		Err(p) if p.contains("assertion failed: found_blocker") => {
+			// Debug-only assertion in ChannelManager::claim_mpp_part / claim_funds_from_hop: a forwarded HTLC's
+			// claim is replayed on start-up (or arrives twice) and takes the duplicate-claim path, whose
+			// FreeDuplicateClaimImmediately action expects an RAA blocker on the downstream channel that the
+			// reloaded manager does not hold. Release builds find nothing to remove and carry on. Observation.
+			outcome = "ldk debug assertion (found_blocker on a duplicate forwarded claim)".to_string();
+			rep.count("ldk_debug_assert_found_blocker_duplicate_claim");
+		},
 		Err(p) if p.contains("self.pending_claim_requests.get(&claim_id).is_none()") => {
 			// Debug-only assertion in OnchainTxHandler::update_claims_view_from_requests: after a reload the
 			// manager regenerates the ChannelForceClosed update of a closed anchor channel whose commitment has
